@@ -36,7 +36,7 @@ use crate::{
     utils::{DropGuardSendBeforeDeath, FnDropGuard},
 };
 use tokio::sync::{
-    mpsc::{self, UnboundedReceiver, UnboundedSender, unbounded_channel},
+    mpsc::{self, UnboundedReceiver, UnboundedSender, WeakUnboundedSender, unbounded_channel},
     oneshot,
 };
 use tracing::{debug, debug_span, trace, warn};
@@ -216,7 +216,9 @@ pub(crate) enum ControlRequest {
     ConnectRequest(SocketAddr, ConnectToken, ConnectRequest),
     ConnectDropped(SocketAddr, ConnectToken),
 
-    Shutdown(StreamRecvKey),
+    // The second field identifies the stream that is shutting down (its channel from the dispatcher):
+    // by the time this is processed another stream may own the key.
+    Shutdown(StreamRecvKey, Option<WeakUnboundedSender<UtpMessage>>),
 }
 
 impl std::fmt::Debug for ControlRequest {
@@ -228,7 +230,7 @@ impl std::fmt::Debug for ControlRequest {
             ControlRequest::ConnectDropped(socket_addr, token) => {
                 write!(f, "ConnectDropped({socket_addr}, {token})")
             }
-            ControlRequest::Shutdown(key) => {
+            ControlRequest::Shutdown(key, _) => {
                 write!(f, "Shutdown({key:?})")
             }
         }
@@ -490,9 +492,22 @@ impl<T: Transport, E: UtpEnvironment> Dispatcher<T, E> {
                     Entry::Vacant(_) => {}
                 };
             }
-            ControlRequest::Shutdown(key) => {
-                trace!(?key, "removing stream");
-                self.streams.remove(&key);
+            ControlRequest::Shutdown(key, owner) => {
+                // The entry may have been removed already (on_recv noticed the dead channel) and the
+                // key reused by a new stream: only the stream that is shutting down may remove it.
+                let is_owner = match (&owner, self.streams.get(&key)) {
+                    (Some(owner), Some(current)) => owner
+                        .upgrade()
+                        .is_some_and(|owner| owner.same_channel(current)),
+                    (None, _) => true,
+                    (Some(_), None) => false,
+                };
+                if is_owner {
+                    trace!(?key, "removing stream");
+                    self.streams.remove(&key);
+                } else {
+                    debug!(?key, "ignoring shutdown of a stream that no longer owns its key");
+                }
             }
         }
     }
@@ -539,7 +554,8 @@ impl<T: Transport, E: UtpEnvironment> Dispatcher<T, E> {
         let now = self.env.now();
         let (tx, rx) = unbounded_channel();
         let args = StreamArgs::new_outgoing(&msg.header, conn.start, now)
-            .with_parent_span(conn.requester.created_span.clone());
+            .with_parent_span(conn.requester.created_span.clone())
+            .with_owner(tx.downgrade());
 
         let recv_key = (addr, msg.header.connection_id);
         if self.streams.insert(recv_key, tx).is_some() {
@@ -572,9 +588,10 @@ impl<T: Transport, E: UtpEnvironment> Dispatcher<T, E> {
             return MatchSynWithAccept::SynInvalid(accept);
         }
 
-        let args = StreamArgs::new_incoming(self.env.random_u16().into(), &syn.header)
-            .with_parent_span(accept.created_span.clone());
         let (tx, rx) = unbounded_channel();
+        let args = StreamArgs::new_incoming(self.env.random_u16().into(), &syn.header)
+            .with_parent_span(accept.created_span.clone())
+            .with_owner(tx.downgrade());
 
         let starter = UtpStreamStarter::new(&self.socket, syn.remote, rx, args);
 
